@@ -423,10 +423,15 @@ def enc_headers(p):
     def quoted(cps):
         return ''.join(map(chr, cps)).replace('\\', '\\\\').replace('"', '\\"').encode('utf-8')
     disp = b'form-data; name="' + quoted(p['name']) + b'"'
+    star = b"; filename*=UTF-8''" + _pct(''.join(map(chr, p['fname'])).encode('utf-8'))
     if p['fkind'] == 1:
         disp += b'; filename="' + quoted(p['fname']) + b'"'
     elif p['fkind'] == 2:
-        disp += b"; filename*=UTF-8''" + _pct(''.join(map(chr, p['fname'])).encode('utf-8'))
+        disp += star
+    elif p['fkind'] == 3:
+        disp += b'; filename="' + quoted(p['fback']) + b'"' + star
+    elif p['fkind'] == 4:
+        disp += star + b'; filename="' + quoted(p['fback']) + b'"'
     lc = p['hv'] == 1
     out = b''
     if p['hv'] == 2:
@@ -463,6 +468,13 @@ NAMES = ['a', 'field', 'f-1', 'a b', 'x;y=z', 'é', 'имя', '名', 'a;filename
 FILES = ['f.txt', '😀.png', 'a b.png', 'x;y.bin', 'é.txt', '€ x.txt', 'naïve file.tar.gz', '名.pdf', 'a%20b', "o'k.txt",
          'say "hi".txt', 'say "hi";x.txt', 'c:\\dir\\f.txt', '\\"', '";', 'a";b"c']
 JSONS = [1, 'x', '--', {'a': 1}, [1, 2, '--b'], {'k': ['é', None, True]}, '\r\n--', {'--': '--'}]
+
+
+# text parts whose charset parameter names no decoder, another real charset, or is not 7-bit
+HOSTILE_TYPES = [b'text/plain; charset=undefined', b'text/plain; charset=utf\x008', b'text/plain; charset=',
+                 b'text/plain; charset=no-such-charset', b'text/plain; charset=' + b'x' * 300, b'text/plain; charset=UTF-8',
+                 b'text/plain; charset=utf_8', b'text/plain; charset=latin-1', b'text/plain; charset=\xfctf-8',
+                 b'text/plain; charset=\x00', b'text/plain; charset=undefined\x00']
 
 
 def random_boundary(rng):
@@ -502,13 +514,20 @@ def random_form(rng, b, maxparts, ascii_headers=False):
         t = rng.random()
         names = [n for n in NAMES if not ascii_headers or n.isascii()]
         files = [f for f in FILES if not ascii_headers or f.isascii()]
-        p = {'name': _cp(rng.choice(names)), 'fkind': 0, 'fname': [], 'ctype': NONE, 'hv': rng.choice((0, 0, 1, 2, 3)),
-             'content': []}
+        p = {'name': _cp(rng.choice(names)), 'fkind': 0, 'fname': [], 'fback': [], 'ctype': NONE,
+             'hv': rng.choice((0, 0, 1, 2, 3)), 'content': []}
         k = rng.random()
-        if k < 0.3:
+        if k < 0.25:
             p['fkind'], p['fname'] = 1, _cp(rng.choice(files + ['']))
-        elif k < 0.55:
+        elif k < 0.45:
             p['fkind'], p['fname'] = 2, _cp(rng.choice(FILES))
+        elif k < 0.65:
+            # both forms: an ASCII fallback in filename= next to the real name in filename*= (either order)
+            real = rng.choice(FILES)
+            fb = ''.join(ch if ch.isascii() and ch not in '"\\;' else '_' for ch in real)
+            if fb == real:
+                fb = 'fallback-' + fb
+            p['fkind'], p['fname'], p['fback'] = rng.choice((3, 4)), _cp(real), _cp(fb)
         if t < 0.18:
             p['ctype'] = list(b'application/json')
             c = canonical_json(rng.choice(JSONS))
@@ -517,7 +536,8 @@ def random_form(rng, b, maxparts, ascii_headers=False):
             p['content'] = list(c)
         else:
             p['ctype'] = rng.choice((NONE, NONE, list(b'text/plain'), list(b'text/plain; charset=utf-8'),
-                                     list(b'application/octet-stream')))
+                                     list(b'application/octet-stream'))
+                                    + ((list(rng.choice(HOSTILE_TYPES)),) * 2))
             p['content'] = list(random_content(rng, b, ascii_only=rng.random() < 0.5))
         form.append(p)
     return form
@@ -944,15 +964,26 @@ def signature_of(clause, ev, k):
 
 
 def charset_table(body):
-    """Charset labels of RFC 5987 values occurring in the body, classified by the trusted decoder
-    (CPython's codec registry): utf8 / bogus (no such charset) / other."""
+    """Charset labels occurring in the body (RFC 5987 values, Content-Type charset parameters), classified
+    by the trusted decoder (CPython's codec registry): utf8 / bogus (names nothing that can decode: not even
+    the empty string decodes under it) / other."""
     import codecs
     import re
+    labels = set(re.findall(rb"filename\*=([A-Za-z0-9_-]+)'", body)) | set(re.findall(rb"charset=([A-Za-z0-9_-]*)", body))
     out = []
-    for lab in sorted(set(re.findall(rb"filename\*=([A-Za-z0-9_-]+)'", body))):
+    for lab in sorted(labels):
         try:
-            c = 'utf8' if codecs.lookup(lab.decode('ascii')).name == 'utf-8' else 'other'
-        except LookupError:
+            name = lab.decode('ascii')
+            info = codecs.lookup(name)
+            ok = False
+            for probe in (b'a', b'ab', b'abcd'):       # (b'' decodes under any label without a lookup)
+                try:
+                    probe.decode(name)
+                    ok = True
+                except Exception:
+                    pass
+            c = 'bogus' if not ok else 'utf8' if info.name == 'utf-8' else 'other'
+        except Exception:
             c = 'bogus'
         out.append({'l': list(lab), 'c': c})
     return out
